@@ -34,7 +34,24 @@ class Color(enum.Enum):
 
 Weird = enum.Enum("Weird", {"é": "N1", "N1": "N2", "N2": "é", "with space": 0})  # a value that is another member's name
 
-ENUMS = [Color, Weird]
+
+
+class Unit(enum.Enum):
+    """One member's VALUE is the NAME of a later member (abbreviation-style codes)."""
+
+    M = "MIN"
+    MIN = "MINIMUM"
+    MAX = "MAXIMUM"
+
+
+class Side(enum.Enum):
+    """Each member's value is the other member's name."""
+
+    LEFT = "RIGHT"
+    RIGHT = "LEFT"
+
+
+ENUMS = [Color, Weird, Unit, Side]
 
 
 @dataclass(frozen=True)
@@ -52,7 +69,28 @@ class Box(ArrowSerializableDataclass):
     hue: Color = Color.GREEN
 
 
-DATAS = [Pt, Box]
+@dataclass(frozen=True)
+class Reading(ArrowSerializableDataclass):
+    """Enums with name/value overlap in every field position: direct, Optional, list element, dict value, set element."""
+
+    amount: int
+    unit: Unit
+    side: Side | None = None
+    history: list[Unit] = field(default_factory=list)
+    by_key: dict[str, Side] = field(default_factory=dict)
+    marks: frozenset[Unit] = frozenset()
+
+
+@dataclass(frozen=True)
+class Log(ArrowSerializableDataclass):
+    """Dataclasses carrying such enums, nested directly and as list elements."""
+
+    first: Reading
+    rest: list[Reading] = field(default_factory=list)
+    last: Reading | None = None
+
+
+DATAS = [Pt, Box, Reading, Log]
 UNITS = {"s": 1_000_000, "ms": 1_000, "us": 1, "ns": 1}
 EPOCH = dt.datetime(1970, 1, 1)
 EPOCH_AWARE = dt.datetime(1970, 1, 1, tzinfo=dt.timezone.utc)
@@ -101,7 +139,7 @@ def ann_src(t: T) -> str:
 
 _NS: dict[str, Any] = {
     "Annotated": Annotated, "ArrowType": ArrowType, "pa": pa, "dt": dt, "Decimal": Decimal, "Optional": Optional,
-    "Protocol": Protocol, "Color": Color, "Weird": Weird, "Pt": Pt, "Box": Box,
+    "Protocol": Protocol, "Color": Color, "Weird": Weird, "Unit": Unit, "Side": Side, "Pt": Pt, "Box": Box, "Reading": Reading, "Log": Log,
 }
 
 
@@ -240,6 +278,23 @@ def exact_eq(a: Any, b: Any) -> bool:
 
         return all(exact_eq(getattr(a, f.name), getattr(b, f.name)) for f in dataclasses.fields(a))
     return a == b
+
+
+def enum_field_differs(a: Any, b: Any) -> bool:
+    """a and b are instances of the same dataclass that differ (only) in an Enum-valued position somewhere inside."""
+    import dataclasses
+
+    if isinstance(a, enum.Enum) and isinstance(b, enum.Enum):
+        return a is not b
+    if isinstance(a, ArrowSerializableDataclass) and type(a) is type(b):
+        return any(enum_field_differs(getattr(a, f.name), getattr(b, f.name)) for f in dataclasses.fields(a))
+    if isinstance(a, (list, tuple)) and isinstance(b, (list, tuple)) and len(a) == len(b):
+        return any(enum_field_differs(x, y) for x, y in zip(a, b))
+    if isinstance(a, dict) and isinstance(b, dict) and a.keys() == b.keys():
+        return any(enum_field_differs(a[k], b[k]) for k in a)
+    if isinstance(a, frozenset) and isinstance(b, frozenset):
+        return any(isinstance(x, enum.Enum) for x in a | b) and a != b
+    return False
 
 
 def _num(x: Any) -> Any:
@@ -510,7 +565,19 @@ def gen_value(t: T, rng: Any, depth: int = 0) -> Any:
     if k == "data":
         if t[1] == 0:
             return Pt(rng.choice([0, -1, 2**63 - 1, -(2**63)]), rng.choice([0.0, -0.0, 1.5, float("inf"), 5e-324]), rng.choice(["", "t", "é\U0001F600"]))
-        return Box(Pt(rng.randint(-9, 9), rng.choice([-0.0, 2.5])), rng.choice([[], [1, 2], [2**63 - 1]]), rng.choice([None, "", "lbl"]), rng.choice(list(Color)))
+        if t[1] == 1:
+            return Box(Pt(rng.randint(-9, 9), rng.choice([-0.0, 2.5])), rng.choice([[], [1, 2], [2**63 - 1]]), rng.choice([None, "", "lbl"]), rng.choice(list(Color)))
+
+        def reading() -> Reading:
+            units, sides = list(Unit), list(Side)
+            return Reading(
+                rng.randint(-3, 3), rng.choice(units), rng.choice([None] + sides), [rng.choice(units) for _ in range(rng.choice([0, 1, 3]))],
+                {k: rng.choice(sides) for k in rng.sample(["a", "b", "é"], rng.choice([0, 1, 2]))}, frozenset(rng.sample(units, rng.choice([0, 1, 2]))),
+            )
+
+        if t[1] == 2:
+            return reading()
+        return Log(reading(), [reading() for _ in range(rng.choice([0, 1, 2]))], rng.choice([None, reading()]))
     if k == "date":
         return rng.choice([dt.date.min, dt.date.max, EPOCH_DATE, dt.date(1969, 12, 31), dt.date(2024, 2, 29), EPOCH_DATE + dt.timedelta(days=rng.randint(-700000, 2900000))])
     if k == "ts":
@@ -573,6 +640,23 @@ def gen_value(t: T, rng: Any, depth: int = 0) -> Any:
             d[key] = gen_value(t[2], rng, depth + 1)
         return d
     raise ValueError(t)
+
+
+def fixed_wells(t: T) -> list[Any]:
+    """Well-typed values that every run must include: the enum members whose NAME is another member's VALUE,
+    in every field position of a nested dataclass."""
+    if t[0] == "opt":
+        return fixed_wells(t[1])
+    r = Reading(1, Unit.MIN, Side.RIGHT, [Unit.MIN, Unit.M, Unit.MAX], {"a": Side.RIGHT, "b": Side.LEFT}, frozenset([Unit.MIN, Unit.MAX]))
+    if t == ("data", 2):
+        return [r, Reading(0, Unit.M, Side.LEFT)]
+    if t == ("data", 3):
+        return [Log(r, [Reading(2, Unit.MAX), r], r)]
+    if t == ("enum", 2):
+        return [Unit.MIN, Unit.M]
+    if t == ("enum", 3):
+        return [Side.RIGHT, Side.LEFT]
+    return []
 
 
 ILL_POOL: list[Any] = [
